@@ -98,7 +98,7 @@ func checkC12(c *Check) {
 	}
 	c.Ob("R3", "reserve path evaluates the capacity predicate", run.Pos(), ra != nil && grantIf != nil, "")
 	// value families of the loop-carried locals
-	resFam := valueFamily(run, func(v ssa.Value) bool { p, ok := v.(*ssa.Parameter); return ok && p.Name() == "reservations" })
+	resFam := valueFamily(run, func(v ssa.Value) bool { p, ok := v.(*ssa.Parameter); return ok && paramName(p) == "reservations" && p.Parent() == run })
 	invFam := valueFamily(run, func(v ssa.Value) bool {
 		ta, ok := v.(*ssa.TypeAssert)
 		return ok && strings.HasSuffix(ta.AssertedType.String(), "[]github.com/ovrclk/akash/provider/cluster/types.Node")
@@ -109,7 +109,12 @@ func checkC12(c *Check) {
 			strings.HasPrefix(Sym(a[3]), "cluster.newReservation(") && strings.Contains(Sym(a[3]), "committedResources(")
 		c.Ob("R3", "capacity predicate sees (node snapshot, free ports, outstanding reservations, new reservation from committed resources)", ra.Pos(), okArgs, short(Sym(a[3])))
 		napp := 0
-		for _, b := range run.Blocks {
+		var blocks []*ssa.BasicBlock
+		blocks = append(blocks, run.Blocks...)
+		for _, hfn := range helpersOf(run) {
+			blocks = append(blocks, hfn.Blocks...)
+		}
+		for _, b := range blocks {
 			for _, in := range b.Instrs {
 				switch x := in.(type) {
 				case *ssa.Call:
@@ -118,13 +123,13 @@ func checkC12(c *Check) {
 							continue
 						}
 						napp++
-						ok := edgeDominates(grantIf.Block(), grantIf.Block().Succs[0], b) && strings.HasPrefix(Sym(x.Call.Args[1]), "[cluster.newReservation(")
+						ok := b.Parent() == grantIf.Block().Parent() && edgeDominates(grantIf.Block(), grantIf.Block().Succs[0], b) && strings.HasPrefix(Sym(x.Call.Args[1]), "[cluster.newReservation(")
 						c.Ob("R3", "reservation list grows only when the capacity predicate holds", x.Pos(), ok, "a reservation is recorded without (or against) the capacity check")
 					}
 				case *ssa.Send:
 					if v := sentValueField(x); v != nil {
 						if cv, _ := callOf(stripConv(v)); cv != nil && cv.Call.StaticCallee() != nil && cv.Call.StaticCallee().Name() == "newReservation" {
-							ok := edgeDominates(grantIf.Block(), grantIf.Block().Succs[0], b)
+							ok := b.Parent() == grantIf.Block().Parent() && edgeDominates(grantIf.Block(), grantIf.Block().Succs[0], b)
 							c.Ob("R3", "positive reserve reply only when the capacity predicate holds", x.Pos(), ok, "")
 						}
 					}
@@ -387,7 +392,9 @@ func valueFamily(fn *ssa.Function, seed func(ssa.Value) bool) map[ssa.Value]bool
 	changed := true
 	for changed {
 		changed = false
-		eachInstr(fn, func(i ssa.Instruction) {
+		// the family extends through new helpers (see transparent.go): arguments bind parameters, returned
+		// members make the call a member
+		eachInstrDeep(fn, func(i ssa.Instruction) {
 			v, ok := i.(ssa.Value)
 			if !ok || fam[v] {
 				return
@@ -409,6 +416,33 @@ func valueFamily(fn *ssa.Function, seed func(ssa.Value) bool) map[ssa.Value]bool
 				if calleeFull(x) == "builtin.append" && fam[x.Call.Args[0]] {
 					fam[v] = true
 					changed = true
+				}
+				if g := newHelperCallee(x); g != nil {
+					for k, a := range x.Call.Args {
+						if fam[a] && k < len(g.Params) && !fam[g.Params[k]] {
+							fam[g.Params[k]] = true
+							changed = true
+						}
+					}
+					if g.Signature.Results().Len() == 1 {
+						for _, rv := range helperReturns(g, 0) {
+							if fam[rv] && !fam[v] {
+								fam[v] = true
+								changed = true
+							}
+						}
+					}
+				}
+			case *ssa.Extract:
+				if cv, isC := x.Tuple.(*ssa.Call); isC {
+					if g := newHelperCallee(cv); g != nil {
+						for _, rv := range helperReturns(g, x.Index) {
+							if fam[rv] && !fam[v] {
+								fam[v] = true
+								changed = true
+							}
+						}
+					}
 				}
 			}
 		})
